@@ -75,8 +75,32 @@ def r18_2(ctx, rep):
         ok = any(s["store"] == store and (s["symbols"], s["values"]) == pair for s in subs)
         rep.ob(R, SITE, "store " + store, ok, "after expansion `%s` must be rewritten with the same (symbols, values) pair as the equations" % store)
     t = [norm(s) for s in ast.walk(fn) if isinstance(s, (ast.Expr, ast.Assign))]
-    rep.ob(R, SITE, "outputs renamed", any("self.outputs.pop(" in x for x in t) and any("self.outputs.insert(" in x for x in t),
+    slice_store = any(isinstance(s_, ast.Assign) and isinstance(s_.targets[0], ast.Subscript) and norm(s_.targets[0].value) == "self.outputs"
+                      and isinstance(s_.targets[0].slice, ast.Slice) and s_.targets[0].slice.lower is not None and s_.targets[0].slice.upper is not None
+                      and norm(s_.targets[0].slice.upper) in ("%s + 1" % norm(s_.targets[0].slice.lower), "1 + %s" % norm(s_.targets[0].slice.lower))
+                      and ".symbol.name()" in norm(s_.value) for s_ in ast.walk(fn))
+    rep.ob(R, SITE, "outputs renamed", slice_store or (any("self.outputs.pop(" in x for x in t) and any("self.outputs.insert(" in x for x in t)),
            "an expanded output must be replaced in self.outputs by the names of its elements, at the same position")
+    # ... and for every variable that is expanded, whatever its group: from the point where the elements are added to the group's new list no
+    # path reaches the next variable without the look-up of the old name in self.outputs
+    from ..cfg import CFG, enclosing_loops
+    cfg = CFG(fn, R)
+    # the list of a variable's scalar elements: what is appended to inside the np.ndindex loop
+    elem_lists = {c.func.value.id for lp in ast.walk(fn) if isinstance(lp, ast.For) and "np.ndindex(" in norm(lp.iter) for c in calls(lp)
+                  if isinstance(c.func, ast.Attribute) and c.func.attr == "append" and isinstance(c.func.value, ast.Name)}
+    ext = [x for x in cfg.stmts() if any(isinstance(c.func, ast.Attribute) and c.func.attr == "extend" and c.args and isinstance(c.args[0], ast.Name)
+                                         and c.args[0].id in elem_lists for c in calls(x.ast))]
+    look = {x.id for x in cfg.stmts() if any(isinstance(c.func, ast.Attribute) and c.func.attr == "index" and norm(c.func.value) == "self.outputs" for c in calls(x.ast))}
+    if not ext or not look:
+        raise MechanismMissing(R, "the extension of the group's new list by the expanded elements / the look-up in self.outputs was not found")
+    inner_loops = enclosing_loops(fn, ext[0].ast)
+    w = None
+    if inner_loops:
+        head = [x for x in cfg.nodes if x.kind == "iter" and x.ast is inner_loops[-1]][0]
+        w = cfg.path(ext[0].id, head.id, avoid=look)
+    rep.ob(R, SITE, "outputs looked up for every expanded variable", bool(inner_loops) and w is None,
+           "after a variable was expanded the next one can be reached without looking the old name up in self.outputs: an output of a group "
+           "the test leaves out keeps its array name, which no variable of the expanded model has", path=cfg.describe(w) if w else "")
     pops_s = [x for x in t if "self.delay_states.pop(" in x]
     pops_a = [x for x in t if "self.delay_arguments.pop(" in x]
     app_s = [x for x in t if "self.delay_states.append(" in x]
